@@ -25,13 +25,13 @@ const (
 
 // Obligation is one rule instance that was decided.
 type Obligation struct {
-	Rule    string  `json:"rule"`
-	Key     string  `json:"key"`             // rule + construct, never a line number
-	Where   string  `json:"where,omitempty"` // file:line for humans (not part of the key)
-	Detail  string  `json:"detail,omitempty"`
-	Verdict Verdict `json:"verdict"`
-	Reason  string  `json:"reason,omitempty"` // for exempt / info
-	Path    []string `json:"path,omitempty"`  // call chain or CFG witness
+	Rule    string   `json:"rule"`
+	Key     string   `json:"key"`             // rule + construct, never a line number
+	Where   string   `json:"where,omitempty"` // file:line for humans (not part of the key)
+	Detail  string   `json:"detail,omitempty"`
+	Verdict Verdict  `json:"verdict"`
+	Reason  string   `json:"reason,omitempty"` // for exempt / info
+	Path    []string `json:"path,omitempty"`   // call chain or CFG witness
 }
 
 type Report struct {
@@ -97,8 +97,9 @@ type knownEntry struct {
 }
 
 // known_findings.txt format, one per line:
-//   finding: property=C12 key=<RULE|construct> :: what fails
-//   fixed: property=C19 <commit> key=<RULE|construct> :: what failed
+//
+//	finding: property=C12 key=<RULE|construct> :: what fails
+//	fixed: property=C19 <commit> key=<RULE|construct> :: what failed
 func loadKnown(path string) []knownEntry {
 	f, err := os.Open(path)
 	if err != nil {
